@@ -19,9 +19,7 @@ NXVIEWS = {
     "HASW": lambda eng, p, g, a, b: T.sv_bool(g.fields["_gw"].dom[_PT.mk(eng.coerce(a, T.INT).t, eng.coerce(b, T.INT).t)]),
     "GW": lambda eng, p, g, a, b: T.sv_real(g.fields["_gw"].val[_PT.mk(eng.coerce(a, T.INT).t, eng.coerce(b, T.INT).t)]),
 }
-LAYOUTS = [Layout("NxGraph", NXFIELDS, views=NXVIEWS), Layout("NxDiGraph", NXFIELDS, views=NXVIEWS),
-           # 2-D numpy array of floats (np.zeros((r, c)), a[i, j], a.flatten()): cells, number of rows, number of columns
-           Layout("NpArray2", {"_m": "Map[Pair[Int,Int],Real]", "_r": "Int", "_c": "Int"})]
+LAYOUTS = [Layout("NxGraph", NXFIELDS, views=NXVIEWS), Layout("NxDiGraph", NXFIELDS, views=NXVIEWS)]
 
 # position of a member in a tuple (k.index(n)): a specification function, scoped to the queries that mention it
 TIDX = z3.Function("tidx", T.TupS, T.I, T.I)
